@@ -600,6 +600,9 @@ func ruleArrayKindCoverage(c *eng.Ctx) {
 		{"internal/planner.(*maxNode).Next", numeric},
 		{"internal/planner.(*minNode).Next", numeric},
 		{"internal/planner.(*countNode).Next", all},
+		{"internal/connor.anyOp", all},
+		{"internal/connor.all", all},
+		{"internal/connor.none", all},
 	} {
 		fi := c.Anchor(rule, spec.fn)
 		if fi == nil {
@@ -619,7 +622,7 @@ func ruleArrayKindCoverage(c *eng.Ctx) {
 					cases[eng.ExprStr(e)] = true
 				}
 			}
-			if cases["[]core.Doc"] {
+			if cases["[]core.Doc"] || cases["[]any"] {
 				found = true
 				for k := range cases {
 					have[k] = true
@@ -633,7 +636,26 @@ func ruleArrayKindCoverage(c *eng.Ctx) {
 		}
 		for _, r := range spec.need {
 			c.Check(have[r], rule, shortFn(fi)+":handles("+r+")", fi.Decl.Pos(), "representation handled",
-				"the aggregate has no case for "+r+": over a field of that array kind it answers null / 0 instead of aggregating the items")
+				"no case for "+r+": over a field of that array kind the aggregate answers null / 0 (the array filter operator answers 'no match') instead of looking at the items")
+		}
+	}
+	// elements of nillable arrays reach eq as Option[T]: eq unwraps every element kind
+	if fi := c.Anchor(rule, "internal/connor.eq"); fi != nil {
+		have := map[string]bool{}
+		ast.Inspect(fi.Decl.Body, func(m ast.Node) bool {
+			if ts, ok := m.(*ast.TypeSwitchStmt); ok {
+				for _, cl := range ts.Body.List {
+					for _, e := range cl.(*ast.CaseClause).List {
+						have[eng.ExprStr(e)] = true
+					}
+				}
+			}
+			return true
+		})
+		for _, el := range []string{"bool", "int64", "float64", "float32", "string"} {
+			r := "immutable.Option[" + el + "]"
+			c.Check(have[r], rule, "connor.eq:unwraps("+r+")", fi.Decl.Pos(), "nillable element unwrapped",
+				"eq does not unwrap "+r+": an element of a nillable array of that kind never equals a condition value")
 		}
 	}
 }
